@@ -33,7 +33,7 @@ package autodiff
 //@   (a.Order >= 1 ==> len(a.Derivative) == a.N) &&
 //@   (a.Order >= 2 ==> len(a.Hessian) == a.N &&
 //@      (forall i int :: 0 <= i && i < a.N ==> len(a.Hessian[i]) == a.N && base(a.Hessian[i]) != base(a.Derivative)) &&
-//@      (forall i int, j int :: 0 <= i && i < j && j < a.N ==> base(a.Hessian[i]) != base(a.Hessian[j])))
+//@      (forall i int, j int :: 0 <= i && i < a.N && 0 <= j && j < a.N && i != j ==> base(a.Hessian[i]) != base(a.Hessian[j])))
 //@ end
 
 // well-formed operand: any scalar; magic ones satisfy their invariant
